@@ -123,6 +123,11 @@ class LangServer:
                 self.handle(request)
             except EOFError:
                 break
+            except RecursionError as e:
+                # The message was read in full but is nested too deeply to be
+                # decoded: report a parse error and keep serving
+                self.conn.write_error(None, code=-32700, message=f"Parse error: {e}")
+                log.warning("error decoding request", exc_info=True)
             except Exception as e:
                 self.post_message(f"Unexpected error: {e}", exc_info=True)
                 break
